@@ -166,6 +166,32 @@ func canonAlphabet(n int) []*inst {
 	return out
 }
 
+// wide-angle alphabet: every parametric gate at every multiple of pi/6 in [-4pi, 4pi] plus a few angles far out
+// (a rotation by theta+2pi is -1 times the rotation by theta: the angle is not periodic in 2pi), every placement
+func wideAngles() []float64 {
+	var a []float64
+	for k := -24; k <= 24; k++ {
+		a = append(a, float64(k)*math.Pi/6)
+	}
+	return append(a, 7.5, -7.5, 9.424778, 40, -100)
+}
+
+func wideAngleAlphabet(n int) []*inst {
+	var out []*inst
+	for _, c := range canonOrder {
+		d := gateDefs[c]
+		if !d.Param {
+			continue
+		}
+		for _, th := range wideAngles() {
+			for _, q := range placements(n, d.Arity) {
+				out = append(out, mkInst(c, c, q, th))
+			}
+		}
+	}
+	return out
+}
+
 // alias alphabet: every other accepted spelling
 func aliasAlphabet(n int) []*inst {
 	var out []*inst
